@@ -706,6 +706,37 @@ PROPS["C09"] = {
     ],
 }
 
+# ---- C22 after the fragment rule (R15) --------------------------------------------------------------------------------
+TWINS["modsel"] = TWINS["modsel"] + [("ms_select_modules", "c22.modules"), ("ms_print_versions", "c22.modules")]
+PROPS["C22"]["level_text"] = PROPS["C22"]["level_text"] + (
+    " The selection statement (`if let Some(ref ..) = args.partial {..} else if project.runtime_memory_image.is_lkm {..} else {..}`) and the --module-versions loop of "
+    "run_with_ghidra are extracted as FRAGMENTS (rule R15: a statement matched by a pattern inside the named function becomes the body of a wrapper with declared "
+    "parameters; the matched text is emitted verbatim apart from three declared substitutions for the free variables) and verified for every list, every "
+    "Option<String> and both values of is_lkm: partial given -> exactly the listed checks; kernel module -> exactly the modules whose name is an ENTRY of "
+    "MODULES_LKM (element equality); otherwise -> every module except CWE78; the listing prints each entry of the list once, in order. Verified clients state the "
+    "three selection clauses and the listing clause over get_modules().")
+PROPS["C22"]["level_note"] = (
+    "Decided: all four selection / listing clauses as far as they are statements about lists of modules. NOT decided: which `run` function a module carries and "
+    "that exactly the selected modules are called ('warnings of a check appear only when that check was selected': function pointers are outside Verus; two statics "
+    "with swapped names still verify); when and with which values run_with_ghidra executes the two statements (that `modules` is still the list of get_modules(), "
+    "that args.partial / is_lkm / args.module_versions are what the command line and the binary say); completeness of get_modules against the source tree; the "
+    "order of a partial run (HashSet iteration order: observation for C23); the text printed per module. No bounded stand-in exists for the binary crate's "
+    "functions; twin c22.modules covers the library facts incl. the caller's expression MODULES_LKM.contains(&name) evaluated per module (it turns a type change "
+    "of MODULES_LKM into a bounded violation). Observation: MODULES_LKM lists CWE457, for which no module exists. Trusted: CweModule restated without its "
+    "fn-pointer field (R13b), the two R15 fragments with their substitutions, shim/modsel.rs (split(c).collect into a HashSet, HashSet into_iter, Iterator::find "
+    "through the closure's contract, Vec::retain through the predicate's contract, println! of a module as a ghost trace), assume_specification of <[T]>::contains "
+    "(element equality), R9 substitutions with the closure bodies verbatim, rules R13 / R13b / R14 / R11.")
+PROPS["C22"]["not_covered"] = [
+    "CweModule::run (function pointer) and the loop that calls the selected modules: 'warnings of a check appear only when that check was selected'",
+    "when and with which values run_with_ghidra executes the selection statement and the listing loop",
+    "completeness of get_modules against the source tree; the order of a partial run; the text printed per module",
+    "no bounded stand-in for the functions of the binary crate",
+]
+PROPS["C22"]["assumptions"] = PROPS["C22"]["assumptions"] + [
+    "R15 fragments ms_select_modules / ms_print_versions of run_with_ghidra with their declared substitutions (args.partial -> *partial, project.runtime_memory_image.is_lkm -> is_lkm, &mut modules -> modules)",
+    "shim: verif_vec_retain (std documentation, through the predicate's contract), verif_print_module (ghost trace); assume_specification of <[T]>::contains",
+]
+
 
 def twin_for(unit, label):
     for frag, twin in TWINS.get(unit, []):
